@@ -24,6 +24,26 @@ def _ch(c):
     return c
 
 
+def _x(n):
+    """explicit keyword arguments, passed verbatim ("declared as empty": [], {}, None, 0, False, set())"""
+    out = {}
+    for k, v in (n.get('xkw') or {}).items():
+        if isinstance(v, dict) and '#set' in v:
+            v = set(v['#set'])
+        elif isinstance(v, dict) and '#dict' in v:
+            v = {a: b for a, b in v['#dict']}
+        elif k == 'measurements' and isinstance(v, list):
+            v = [tuple(m) for m in v]
+        out[k] = v
+    return out
+
+
+def _kwx(n, *names):
+    out = _kw(n, *names)
+    out.update(_x(n))
+    return out
+
+
 def build_node(n, objs):
     from qupulse.pulses import (TablePT, PointPT, FunctionPT, ConstantPT, SequencePT, RepetitionPT, ForLoopPT,
                                 MappingPT, AtomicMultiChannelPT, ParallelChannelPT, ArithmeticPT,
@@ -33,26 +53,26 @@ def build_node(n, objs):
     ch = lambda i: objs[i]
     if k == 'Table':
         return TablePT({c: [tuple(e) for e in es] for c, es in n['entries']}, identifier=ident,
-                       **_kw(n, 'parameter_constraints', 'measurements'))
+                       **_kwx(n, 'parameter_constraints', 'measurements'))
     if k == 'Point':
         return PointPT([tuple(tuple(x) if isinstance(x, list) else x for x in e) for e in n['points']], list(n['chans']),
-                       identifier=ident, **_kw(n, 'parameter_constraints', 'measurements'))
+                       identifier=ident, **_kwx(n, 'parameter_constraints', 'measurements'))
     if k == 'Function':
         return FunctionPT(n['ex'], n['dur'], channel=n['ch'], identifier=ident,
-                          **_kw(n, 'parameter_constraints', 'measurements'))
+                          **_kwx(n, 'parameter_constraints', 'measurements'))
     if k == 'Constant':
-        kw = _kw(n, 'measurements')
+        kw = _kwx(n, 'measurements')
         if n.get('name') is not None:
             kw['name'] = n['name']
         return ConstantPT(n['dur'], {c: v for c, v in n['amps']}, identifier=ident, **kw)
     if k == 'Sequence':
-        return SequencePT(*[ch(i) for i in n['subs']], identifier=ident, **_kw(n, 'parameter_constraints', 'measurements'))
+        return SequencePT(*[ch(i) for i in n['subs']], identifier=ident, **_kwx(n, 'parameter_constraints', 'measurements'))
     if k == 'Repetition':
-        return RepetitionPT(ch(n['body']), n['count'], identifier=ident, **_kw(n, 'parameter_constraints', 'measurements'))
+        return RepetitionPT(ch(n['body']), n['count'], identifier=ident, **_kwx(n, 'parameter_constraints', 'measurements'))
     if k == 'ForLoop':
         r = n['rng']
         return ForLoopPT(ch(n['body']), n['idx'], tuple(r) if isinstance(r, list) else r, identifier=ident,
-                         **_kw(n, 'parameter_constraints', 'measurements'))
+                         **_kwx(n, 'parameter_constraints', 'measurements'))
     if k == 'Mapping':
         kw = {}
         if n.get('pmap') is not None:
@@ -62,10 +82,10 @@ def build_node(n, objs):
         if n.get('cmap') is not None:
             kw['channel_mapping'] = {a: b for a, b in n['cmap']}
         return MappingPT(ch(n['tmpl']), identifier=ident, allow_partial_parameter_mapping=True,
-                         **kw, **_kw(n, 'parameter_constraints'))
+                         **{**kw, **_kwx(n, 'parameter_constraints')})
     if k == 'AtomicMulti':
-        kw = _kw(n, 'parameter_constraints', 'measurements')
-        if n.get('dur') is not None:
+        kw = _kwx(n, 'parameter_constraints', 'measurements')
+        if n.get('dur') is not None and 'duration' not in kw:
             kw['duration'] = n['dur']
         return AtomicMultiChannelPT(*[ch(i) for i in n['subs']], identifier=ident, **kw)
     if k == 'Parallel':
@@ -80,7 +100,7 @@ def build_node(n, objs):
         return ArithmeticPT(operand(n['lhs']), n['op'], operand(n['rhs']), identifier=ident)
     if k == 'ArithmeticAtomic':
         return ArithmeticAtomicPT(ch(n['lhs']), n['op'], ch(n['rhs']), identifier=ident, silent_atomic=True,
-                                  **_kw(n, 'measurements'))
+                                  **_kwx(n, 'measurements'))
     if k == 'TimeReversal':
         return TimeReversalPT(ch(n['inner']), identifier=ident)
     if k == 'Abstract':
@@ -92,6 +112,7 @@ def build_node(n, objs):
             kw['integral'] = {c: v for c, v in n['integral']}
         if n.get('duration') is not None:
             kw['duration'] = n['duration']
+        kw.update(_x(n))
         return AbstractPulseTemplate(ident, **kw)
     raise ValueError(k)
 
@@ -194,6 +215,9 @@ class Gen:
             entries = []
             for j, c in enumerate(chans):
                 es = [[0, self.val(need if j == 0 else None)]]
+                if not self.numeric and need is None and r.random() < 0.06:
+                    es[0][1] = r.choice(['t', 't*a', 'v + t'])      # an ordinary parameter that is called like the time variable
+                    self.flags.add('param_t')
                 if r.random() < 0.5:
                     es.append([mid, self.val(), r.choice(INTERP)])
                 es.append([dur, self.val(), r.choice(INTERP)] if r.random() < 0.8 else [dur, self.val()])
@@ -261,9 +285,12 @@ class Gen:
         r = self.rng
         inner_ch = list(chans)
         cmap = []
-        mode = r.choice(['same', 'rename', 'drop', 'partial'])
+        mode = r.choice(['same', 'rename', 'drop', 'partial', 'swap'])
         extra = 'Z' if not self.int_mode else r.choice(['Z', 9])
-        if mode == 'rename':
+        if mode == 'swap' and len(chans) >= 2:      # {A: B, B: A}
+            cmap = [[chans[0], chans[1]], [chans[1], chans[0]]]
+            self.flags.add('swap')
+        elif mode == 'rename':
             j = r.randrange(len(chans))
             inner_ch[j] = extra
             cmap.append([extra, chans[j]])
@@ -284,9 +311,15 @@ class Gen:
         if params and r.random() < 0.6:
             chosen = r.sample(params, min(len(params), r.choice([1, 1, 2])))
             pm = []
+            ordinary = [p for p in chosen if p != need and p not in ('d', 'u', 'n', 'k', 'i', 't')]
+            swap = ordinary[:2] if len(ordinary) >= 2 and r.random() < 0.3 else []
             for p in chosen:
-                if p == need:
-                    pm.append([p, p])
+                if p in swap:       # {a: b, b: a}
+                    pm.append([p, swap[1 - swap.index(p)]])
+                elif p == need:     # identity, or the name rebound to an expression of itself
+                    pm.append([p, r.choice([p, p, p, p + ' + 1', p + '*2'])])
+                elif p not in ('d', 'u', 'n', 'k', 'i') and r.random() < 0.2:
+                    pm.append([p, r.choice([p + '*2', p + ' + a', '2*' + p + ' - w'])])
                 elif p in ('d', 'u'):
                     pm.append([p, r.choice(['d', 'u/2', 'd*1'])])
                 elif p in ('n', 'k', 'i'):
@@ -295,7 +328,10 @@ class Gen:
                     pm.append([p, r.choice(['a', 'a+b', 'v*2', 0.5, p + '_ext', 'w', 3])])
             node['pmap'] = pm
         mnames = sorted(obj.measurement_names)
-        if mnames and r.random() < (0.9 if self.numeric else 0.5):
+        if len(mnames) >= 2 and r.random() < 0.3:
+            node['mmap'] = [[mnames[0], mnames[1]], [mnames[1], mnames[0]]]
+            self.flags.add('swap')
+        elif mnames and r.random() < (0.9 if self.numeric else 0.5):
             node['mmap'] = [[mnames[0], r.choice(['q', 'm', 'k2'])]]
         if r.random() < 0.15:
             node['parameter_constraints'] = [r.choice(CONSTRAINTS)]
@@ -515,6 +551,286 @@ def exhaustive_cases(tier):
     return out
 
 
+# ---------------------------------------------------------------------------------------------------------------------
+# "declared as empty" vs "not declared": every optional constructor argument of every class with each empty value
+_LEAF = dict(k='Table', entries=[['A', [[0, 'a'], [4, 'v', 'linear']]]], measurements=[['m', 0, 'd']])
+_LEAF_I = dict(k='Table', entries=[['A', [[0, 'i'], [4, 'v', 'linear']]]])
+_LEAF_B = dict(k='Constant', dur=4, amps=[['B', 'x']])
+_LEAF_A2 = dict(k='Constant', dur=4, amps=[['A', 'w']], measurements=[['k', 0, 1]])
+_PCM = [('parameter_constraints', []), ('parameter_constraints', None), ('measurements', []), ('measurements', None)]
+_S = lambda *l: {'#set': list(l)}
+_D = lambda *l: {'#dict': [list(e) for e in l]}
+
+
+def _empty_variants():
+    """(label, nodes) with the subject as last node; label = class:field=value"""
+    out = []
+
+    def add(label, *nodes):
+        out.append((label, [dict(n) for n in nodes]))
+
+    def xk(base, pairs, *pre):
+        for f, v in pairs:
+            add('%s:%s=%r' % (base['k'], f, v), *pre, dict(base, xkw={f: v}))
+        add('%s:all-empty' % base['k'], *pre, dict(base, xkw={f: v for f, v in pairs if v is not None}))
+        add('%s:all-None' % base['k'], *pre, dict(base, xkw={f: v for f, v in pairs if v is None}))
+    xk(dict(k='Table', entries=[['A', [[0, 0], [4, 0, 'hold']]]]), _PCM)
+    xk(dict(k='Point', points=[[0, 0], [4, 0, 'hold']], chans=['A']), _PCM)
+    xk(dict(k='Function', ex=0, dur=4, ch='A'), _PCM)
+    add('Function:channel=default', dict(k='Function', ex='a', dur='d', ch='default'))
+    xk(dict(k='Constant', dur=4, amps=[['A', 0]]), [('name', None), ('measurements', []), ('measurements', None)])
+    add('Constant:amp=0.0', dict(k='Constant', dur=4, amps=[['A', 0.0], ['B', 0]]))
+    xk(dict(k='Sequence', subs=[0]), _PCM, _LEAF)
+    xk(dict(k='Repetition', body=0, count=0), _PCM, _LEAF)
+    add('Repetition:count=0.0', _LEAF, dict(k='Repetition', body=0, count=0.0))
+    xk(dict(k='ForLoop', body=0, idx='i', rng=0), _PCM, _LEAF_I)
+    for r in ([0], [0, 0], [0, 0, 1], ['n'], [0, 'n']):
+        add('ForLoop:rng=%r' % (r,), _LEAF_I, dict(k='ForLoop', body=0, idx='i', rng=r))
+    mp = [('parameter_mapping', _D()), ('parameter_mapping', None), ('measurement_mapping', _D()),
+          ('measurement_mapping', None), ('channel_mapping', _D()), ('channel_mapping', None),
+          ('parameter_constraints', []), ('parameter_constraints', None)]
+    xk(dict(k='Mapping', tmpl=0), mp, _LEAF)
+    add('Mapping:pmap-value=0', _LEAF, dict(k='Mapping', tmpl=0, pmap=[['a', 0], ['v', 0.0]]))
+    add('Mapping:pmap-identity', _LEAF, dict(k='Mapping', tmpl=0, pmap=[['a', 'a']], mmap=[['m', 'm']], cmap=[['A', 'A']]))
+    xk(dict(k='AtomicMulti', subs=[0, 1]), _PCM + [('duration', None), ('duration', False), ('duration', 0)], _LEAF, _LEAF_B)
+    add('Parallel:over={}', _LEAF, dict(k='Parallel', tmpl=0, over=[]))
+    add('Parallel:over-value=0', _LEAF, dict(k='Parallel', tmpl=0, over=[['B', 0], ['C', 0.0]]))
+    for sc in (0, 0.0, {'map': []}, {'map': [['A', 0]]}):
+        add('Arithmetic:scalar=%r' % (sc,), _LEAF, dict(k='Arithmetic', lhs={'pt': 0}, op='+', rhs=sc))
+        add('Arithmetic:lhs-scalar=%r' % (sc,), _LEAF, dict(k='Arithmetic', lhs=sc, op='*', rhs={'pt': 0}))
+    xk(dict(k='ArithmeticAtomic', lhs=0, rhs=1, op='+'), [('measurements', []), ('measurements', None)], _LEAF, _LEAF_A2)
+    add('TimeReversal', _LEAF, dict(k='TimeReversal', inner=0))
+    # AbstractPT: the cross product {not declared, declared empty, declared non-empty} of the three set properties
+    vals = {'defined_channels': [None, _S(), _S('A')], 'parameter_names': [None, _S(), _S('a', 'd')],
+            'measurement_names': [None, _S(), _S('m')]}
+    for c in vals['defined_channels']:
+        for pn in vals['parameter_names']:
+            for mn in vals['measurement_names']:
+                xkw = {k: v for k, v in (('defined_channels', c), ('parameter_names', pn), ('measurement_names', mn))
+                       if v is not None}
+                add('Abstract:%s' % ','.join('%s=%s' % (k[0], len(v['#set'])) for k, v in sorted(xkw.items())) or 'none',
+                    dict(k='Abstract', xkw=xkw))
+    for f, v in (('integral', _D()), ('integral', None), ('duration', 0), ('duration', None), ('duration', 0.0),
+                 ('duration', False), ('duration', ''), ('duration', 'd'), ('integral', _D(['A', 0]))):
+        add('Abstract:%s=%r' % (f, v), dict(k='Abstract', xkw={f: v}))
+        add('Abstract:A,%s=%r' % (f, v), dict(k='Abstract', xkw={'defined_channels': _S('A'), f: v}))
+    return out
+
+
+def empties_cases(tier):
+    """the subject stored (a) as a root of its own, (b) as a named child of a SequencePT together with an ordinary
+    sibling (the parent's interface is the union over the children: a property lost by a child shows in the parent)"""
+    import copy
+    out = []
+    variants = _empty_variants()
+    for vi, (label, nodes) in enumerate(variants):
+        for mode in ('root', 'child'):
+            if tier == 'quick' and mode == 'child' and not label.startswith('Abstract') and vi % 3:
+                continue
+            ns = copy.deepcopy(nodes)
+            for j, n in enumerate(ns[:-1]):
+                n.setdefault('id', None)
+            ns[-1]['id'] = 'subj'
+            roots = [len(ns) - 1]
+            if mode == 'child':
+                ns.append(dict(_LEAF, id=None))
+                ns.append(dict(k='Sequence', id='top', subs=[len(ns) - 2, len(ns) - 1]))
+                roots = [len(ns) - 1]
+            try:
+                build(ns)
+            except Exception:   # noqa  the constructor rejects this combination
+                continue
+            out.append({'kind': 'store', 'nodes': ns, 'roots': roots, 'ops': [[0, 0]], 'backend': BACKENDS[len(out) % 3],
+                        'flags': ['empties', 'empty:' + label.split(':')[0]], 'label': label + '/' + mode})
+    return out
+
+
+# ---------------------------------------------------------------------------------------------------------------------
+# histories on ONE PulseStorage: overwrite of the same / another object, deletion, re-store, link_to / unlink between stores
+def _named_desc(nodes, root):
+    """node indices of named proper descendants of root, with the number of named nodes strictly between"""
+    from props import c10
+    out = []
+
+    def walk(i, between):
+        for c in c10._node_children(nodes[i]):
+            if nodes[c].get('id') is not None:
+                out.append((c, between))
+                walk(c, between + 1)
+            else:
+                walk(c, between)
+    walk(root, 0)
+    return out
+
+
+def _subtree(nodes, root):
+    from props import c10
+    seen, todo = set(), [root]
+    while todo:
+        i = todo.pop()
+        if i not in seen:
+            seen.add(i)
+            todo.extend(c10._node_children(nodes[i]))
+    return seen
+
+
+HIST_FAMILIES = ['over_same', 'del_child_over', 'del_child_store', 'del_root_restore', 'del_all_restore', 'replace_after_del',
+                 'over_other', 'store_other', 'link_over', 'link_store', 'link_first', 'link_plain', 'unlink_over',
+                 'child_first_del', 'random', 'random', 'random']
+
+
+def gen_hist_case(rng, idx, tier, family=None):
+    fam = family or HIST_FAMILIES[idx % len(HIST_FAMILIES)]
+    int_mode = rng.random() < 0.05
+    g = Gen(rng, int_mode=int_mode, p_named=rng.choice([0.5, 0.7, 0.9]), abstract=rng.random() < 0.1,
+            numeric=rng.random() < 0.15)
+    pool = rng.choice([[0, 1], [1]]) if int_mode else rng.choice([['A'], ['A', 'B'], ['A', 'B'], ['out']])
+    flags = {'hist', 'hist:' + fam}
+    if int_mode:
+        flags.add('int_key')
+    depth = rng.choice([1, 2, 2, 3])
+    hops = []
+    if fam.startswith('link') or fam == 'unlink_over':
+        chans = list(pool)
+        node = dict(k='Abstract', id=g.fresh_id())
+        decl = rng.choice(['all', 'some', 'none', 'empty'])
+        if decl in ('all', 'some'):
+            node['defined_channels'] = chans
+        if decl == 'all':
+            node['xkw'] = {'measurement_names': {'#set': []}}
+            if rng.random() < 0.5:
+                node['parameter_names'] = ['a', 'd']
+        if decl == 'empty':
+            node['xkw'] = {'parameter_names': {'#set': []}, 'measurement_names': {'#set': []}}
+        a = g.add(node, chans, False, None)
+        t = g.tree(pool, depth, force_id=rng.random() < 0.4)
+        while g.nodes[t]['k'] == 'Abstract':
+            t = g.tree(pool, depth)
+        if a in _subtree(g.nodes, t):
+            raise ValueError('the target contains the placeholder')
+        roots = [a]
+        ser = fam != 'link_plain'
+        if fam == 'link_over':
+            hops = [['store', 0], ['link', 0, t, ser], ['over', 0]]
+        elif fam == 'link_store':
+            hops = [['store', 0], ['link', 0, t, ser], ['store', 0]]
+        elif fam == 'link_first':
+            hops = [['link', 0, t, ser], [rng.choice(['store', 'over']), 0]]
+        elif fam == 'link_plain':
+            hops = [['store', 0], ['link', 0, t, False], ['over', 0]]
+        else:
+            hops = [['store', 0], ['link', 0, t, True], ['over', 0], ['unlink', 0], [rng.choice(['over', 'store']), 0]]
+        if rng.random() < 0.3:
+            hops.append(['over', 0])
+    else:
+        r = g.tree(pool, depth, force_id=True)
+        roots = [r]
+        desc = _named_desc(g.nodes, r)
+        ident = lambda i: g.nodes[i]['id']
+        if fam == 'over_same':
+            hops = [['store', 0], ['over', 0]] + ([['over', 0]] if rng.random() < 0.3 else [])
+        elif fam in ('del_child_over', 'del_child_store'):
+            if not desc:
+                c = g.atomic(pool, g.dur(), 0, force_id=True)
+                r = g.add(dict(k='Sequence', id=g.fresh_id(), subs=[r, c, c]), pool, False, None)
+                roots = [r]
+                desc = _named_desc(g.nodes, r)
+            c, between = rng.choice(desc)
+            if between:
+                flags.add('del_below_cached')
+            hops = [['store', 0], ['del', ident(c)], ['over' if fam == 'del_child_over' else 'store', 0]]
+            if rng.random() < 0.3:
+                hops.append(['over', 0])
+        elif fam == 'del_root_restore':
+            hops = [['store', 0], ['del', ident(r)], [rng.choice(['store', 'over']), 0]]
+        elif fam == 'del_all_restore':
+            ids = []
+            for c, _ in desc:
+                if ident(c) not in ids:
+                    ids.append(ident(c))
+            rng.shuffle(ids)
+            hops = [['store', 0]] + [['del', i] for i in ids + [ident(r)]] + [['store', 0]]
+            if rng.random() < 0.4:      # delete something twice / something that never existed
+                hops.insert(2, ['del', rng.choice(ids + [ident(r), 'nope'])])
+        elif fam in ('replace_after_del', 'over_other', 'store_other'):
+            r2 = g.tree(pool, rng.choice([1, 2]), force_id=True)
+            if r2 == r or any(g.nodes[i].get('id') == ident(r) for i in _subtree(g.nodes, r2)):
+                raise ValueError('the replacement contains the replaced object')
+            g.nodes[r2]['id'] = ident(r)
+            roots = [r, r2]
+            flags.add('same_id_other_object')
+            if fam == 'replace_after_del':
+                hops = [['store', 0], ['del', ident(r)], [rng.choice(['store', 'over']), 1]]
+            elif fam == 'over_other':
+                hops = [['store', 0], ['over', 1]] + ([['over', 0]] if rng.random() < 0.3 else [])
+            else:
+                hops = [['store', 0], ['store', 1]]
+        elif fam == 'child_first_del':
+            if not desc:
+                c = g.atomic(pool, g.dur(), 0, force_id=True)
+                r = g.add(dict(k='Repetition', id=g.fresh_id(), body=c, count='n'), pool, False, None)
+                desc = _named_desc(g.nodes, r)
+            c, _ = rng.choice(desc)
+            roots = [r, c]
+            hops = [['store', 1], ['store', 0], ['del', ident(c)], [rng.choice(['store', 'over']), rng.choice([0, 1])]]
+            if rng.random() < 0.5:
+                hops.append([rng.choice(['store', 'over']), 0])
+        else:   # random
+            roots = [r]
+            if rng.random() < 0.5:
+                roots.append(g.tree(pool, rng.choice([1, 2]), force_id=True))
+            for c, _ in desc[:]:
+                if rng.random() < 0.4 and c not in roots:
+                    roots.append(c)
+            ids = sorted({g.nodes[i]['id'] for i in range(len(g.nodes)) if g.nodes[i].get('id') is not None})
+            for _ in range(rng.randint(3, 8)):
+                x = rng.random()
+                if x < 0.35:
+                    hops.append(['store', rng.randrange(len(roots))])
+                elif x < 0.65:
+                    hops.append(['over', rng.randrange(len(roots))])
+                else:
+                    hops.append(['del', rng.choice(ids)])
+            if hops[0][0] == 'del':
+                hops.insert(0, ['store', 0])
+    build(g.nodes)
+    return {'kind': 'hist', 'nodes': g.nodes, 'roots': roots, 'hops': hops, 'backend': BACKENDS[idx % 3],
+            'flags': sorted(flags)}
+
+
+# the two histories of seed C10-4 and their neighbours on fixed small forests (always run, every backend in thorough)
+def fixed_hist_cases(tier):
+    import copy
+    ramp = dict(k='Table', id='ramp', entries=[['A', [[0, 0], ['d', 'v', 'linear']]]], measurements=[['m', 0, 'd']])
+    rep = dict(k='Repetition', id=None, body=0, count='n')
+    scan = dict(k='Sequence', id='scan', subs=[1, 0])
+    mid = dict(k='Repetition', id='mid', body=0, count='n')
+    top = dict(k='Sequence', id='top', subs=[1])
+    absr = dict(k='Abstract', id='readout', defined_channels=['A'], parameter_names=['d'])
+    impl = dict(k='Table', id=None, entries=[['A', [[0, 0.5], ['d', 0.5, 'hold']]]], measurements=[['k', 0, 'd']])
+    impl_named = dict(impl, id='impl')
+    out = []
+    specs = [
+        ('seed4_del_child_over', [ramp, rep, scan], [2], [['store', 0], ['del', 'ramp'], ['over', 0]]),
+        ('del_child_store_noop', [ramp, rep, scan], [2], [['store', 0], ['del', 'ramp'], ['store', 0]]),
+        ('del_grandchild_over', [ramp, mid, top], [2], [['store', 0], ['del', 'ramp'], ['over', 0]]),
+        ('del_grandchild_del_mid_over', [ramp, mid, top], [2], [['store', 0], ['del', 'ramp'], ['del', 'mid'], ['over', 0]]),
+        ('del_parent_keep_child', [ramp, rep, scan], [2, 0], [['store', 0], ['del', 'scan'], ['store', 1], ['store', 0]]),
+        ('seed4_link_over', [absr, impl], [0], [['store', 0], ['link', 0, 1, True], ['over', 0]]),
+        ('link_named_over', [absr, impl_named], [0], [['store', 0], ['link', 0, 1, True], ['over', 0]]),
+        ('link_store_noop', [absr, impl], [0], [['store', 0], ['link', 0, 1, True], ['store', 0]]),
+        ('link_plain_over', [absr, impl], [0], [['store', 0], ['link', 0, 1, False], ['over', 0]]),
+        ('link_unlink', [absr, impl], [0], [['store', 0], ['link', 0, 1, True], ['over', 0], ['unlink', 0], ['over', 0]]),
+        ('over_twice', [ramp, rep, scan], [2], [['store', 0], ['over', 0], ['over', 0]]),
+        ('del_absent', [ramp, rep, scan], [2], [['del', 'scan'], ['store', 0], ['del', 'nope'], ['del', 'ramp'], ['del', 'ramp']]),
+    ]
+    for name, nodes, roots, hops in specs:
+        for b in (BACKENDS if tier != 'quick' else [BACKENDS[len(out) % 3]]):
+            out.append({'kind': 'hist', 'nodes': copy.deepcopy(nodes), 'roots': roots, 'hops': hops, 'backend': b,
+                        'flags': ['hist', 'hist:fixed', 'fixed:' + name]})
+    return out
+
+
 def gen_cases(rng, tier, n_store=None, n_doc=None):
     if n_store is None:
         n_store = 300 if tier == 'quick' else 3000
@@ -538,4 +854,15 @@ def gen_cases(rng, tier, n_store=None, n_doc=None):
             docs.append(gen_doc_case(rng, c))
         except Exception:   # noqa
             continue
-    return cases + docs + (exhaustive_cases(tier) if n_doc != 0 else [])
+    if n_doc == 0:      # search_failing: store cases only
+        return cases
+    hist = list(fixed_hist_cases(tier))
+    n_hist = 102 if tier == 'quick' else 1200
+    tries = 0
+    while len(hist) < n_hist + len(fixed_hist_cases(tier)) and tries < n_hist * 6:
+        tries += 1
+        try:
+            hist.append(gen_hist_case(rng, len(hist), tier))
+        except Exception:   # noqa  invalid template / degenerate history: skip
+            continue
+    return cases + docs + exhaustive_cases(tier) + empties_cases(tier) + hist
